@@ -218,10 +218,11 @@ func (e *ev) protFuncs(acceptClose bool) map[*ssa.Function]*recoverFrame {
 }
 
 // protectedSite: instruction `in` executes inside a routing recover frame:
-//   (a) its function registered such a frame before `in`; or
-//   (b) its function is a closure / bound method value handed to a helper that calls its
-//       function parameter after registering such a frame (invokeMethod idiom);
-//   (c) its function is only called (statically) from protected sites.
+//
+//	(a) its function registered such a frame before `in`; or
+//	(b) its function is a closure / bound method value handed to a helper that calls its
+//	    function parameter after registering such a frame (invokeMethod idiom);
+//	(c) its function is only called (statically) from protected sites.
 func (e *ev) protectedSite(in ssa.Instruction, prot map[*ssa.Function]*recoverFrame, depth int) (bool, string) {
 	fn := in.Parent()
 	if fr, ok := prot[fn]; ok && core.Dominates(fr.Defer, in) {
